@@ -634,6 +634,21 @@ func c07seedsAt(b *ssa.BasicBlock) map[*ssa.Phi]constant.Value {
 // next iteration of the enclosing loop or the end of the operation. known: what the results of the call
 // `from` are known to be for an accepted insertion.
 func (k *c07k) evalAfter(fn *ssa.Function, from ssa.Instruction, known map[ssa.Value]c07known, gtm *ssa.Function, depth int) c07v {
+	return k.evalAfterG(fn, from, known, gtm, nil, depth)
+}
+
+// c07goal replaces "a call of the matcher" as the effect every path has to pass (round 4: the write into the
+// threshold-output map after a positive result of the matcher) and says how an escaping path is judged.
+type c07goal struct {
+	effect func(ssa.Instruction) bool
+	judge  func(fn *ssa.Function, path []*ssa.BasicBlock, decided func(ssa.Value) (bool, bool)) c07v
+}
+
+func (k *c07k) evalAfterG(fn *ssa.Function, from ssa.Instruction, known map[ssa.Value]c07known, gtm *ssa.Function, g *c07goal, depth int) c07v {
+	effect := k.callEffect(gtm)
+	if g != nil {
+		effect = g.effect
+	}
 	l := an.InnermostLoop(fn, from.Block())
 	var stop func(b *ssa.BasicBlock) bool
 	if l != nil {
@@ -737,19 +752,19 @@ func (k *c07k) evalAfter(fn *ssa.Function, from ssa.Instruction, known map[ssa.V
 		var esc bool
 		if goal == nil {
 			// only the loop header counts
-			path, esc = an.H07Path(fn, from, &ssa.Jump{}, k.callEffect(gtm), prune, stop)
+			path, esc = an.H07Path(fn, from, &ssa.Jump{}, effect, prune, stop)
 		} else {
 			// without entering the next iteration (decided by the nil goal)
 			noNext := prune
 			if l != nil {
 				noNext = func(b *ssa.BasicBlock, succ int) bool { return b.Succs[succ] == l.Header || prune(b, succ) }
 			}
-			path, esc = an.H07Path(fn, from, goal, k.callEffect(gtm), noNext, nil)
+			path, esc = an.H07Path(fn, from, goal, effect, noNext, nil)
 		}
 		if !esc {
 			continue
 		}
-		if c07pathHasFlagBranch(path) && !c07flagsDecided(path) {
+		if g == nil && c07pathHasFlagBranch(path) && !c07flagsDecided(path) {
 			bad = bad.and(c07Unsure("the evaluation is skipped on a branch over a flag variable that is not evaluated: " + an.PathString(k.c.P, path)))
 			continue
 		}
@@ -790,8 +805,12 @@ func (k *c07k) evalAfter(fn *ssa.Function, from ssa.Instruction, known map[ssa.V
 						kn[a] = kv
 					}
 				}
-				bad = bad.and(k.evalAfter(s.Parent(), call, kn, gtm, depth+1))
+				bad = bad.and(k.evalAfterG(s.Parent(), call, kn, gtm, g, depth+1))
 			}
+			continue
+		}
+		if g != nil {
+			bad = bad.and(g.judge(fn, path, decide))
 			continue
 		}
 		bad = bad.and(c07Bad("an accepted partial signature is not evaluated against the threshold on path " + an.PathString(k.c.P, path) + ": a matching group can reach threshold unnoticed"))
